@@ -14,7 +14,7 @@ import shutil
 def _variant(params, r):
     """A' differs from A in exactly one field."""
     p = copy.deepcopy(params)
-    which = r.choice(["metrics", "energy", "size", "bound"] + (["energy", "energy"] if p.get("use_vars") else []))
+    which = r.choice(["metrics", "energy", "size", "bound"] + (["energy"] * 4 if p.get("use_vars") else []))
     if which == "metrics":
         from sim.specgen import METRIC_SETS
         opts = [m for m in METRIC_SETS if m != p["metrics"]]
@@ -114,7 +114,7 @@ def plan_history(sc):
     steps = [("A", None)]
     n = r.choice([3, 4, 5])
     for _ in range(n - 1):
-        spec = r.choice(["A", "A", "A", "B"])
+        spec = r.choice(["A", "A", "B", "B"])
         fault = r.choice([None, None, None, "torn", "flip", "lost_output", "lost_meta", "stale_tmp", "enospc"])
         steps.append((spec, fault))
     return {"A": A, "B": B, "variant_field": which, "steps": steps, "fault_seed": r.getrandbits(32)}
